@@ -185,3 +185,24 @@ Definition check_affine (r t : coll_table) (ntol wtol : dy) : bool :=
   Nat.eqb (length (ct_S r)) (length (ct_S t)) &&
   forallb (fun p => chk_aff_row h wtol (fst p) (snd p)) (combine (ct_S r) (ct_S t)) &&
   Nat.eqb (ct_order r) (ct_order t) && Bool.eqb (ct_left r) (ct_left t) && Bool.eqb (ct_right r) (ct_right t).
+
+(* ---------------- the collocation-update switch of Sweeper.__init__, also under re-initialisation ---- *)
+(* What the constructor must leave in params.do_coll_update: a function of the quadrature type's
+   right_is_node and of the value the user passed with THIS call only. *)
+Definition upd_flag (right_is_node user : bool) : bool := user || negb right_is_node.
+
+(* One sweeper object initialised repeatedly (sweeper.__init__(params) as AdaptiveCollocation does):
+   the flag observable after each initialisation. History independent by construction. *)
+Definition reinit_flags (calls : list (bool * bool)) : list bool :=
+  map (fun c => upd_flag (fst c) (snd c)) calls.
+
+Fixpoint bools_eqb (x y : list bool) : bool :=
+  match x, y with
+  | [], [] => true
+  | a :: x', b :: y' => Bool.eqb a b && bools_eqb x' y'
+  | _, _ => false
+  end.
+
+(* calls = (right_is_node, user do_coll_update) per initialisation; obs = flag read after each *)
+Definition check_reinit (calls : list (bool * bool)) (obs : list bool) : bool :=
+  bools_eqb (reinit_flags calls) obs.
